@@ -9,3 +9,5 @@ import "github.com/richardwilkes/toolbox/taskqueue"
 const overlayBuild = false
 
 func withInCap(opts []taskqueue.Option, _ int) []taskqueue.Option { return opts }
+
+func queueFields(*taskqueue.Queue) (workers, depth, inCap int, handler bool) { return 0, 0, 0, false }
